@@ -305,7 +305,7 @@ def run(ctx):
             connects = []
             opts = mock.Mock(verbose=0, delay=0, warp=1.0, incremental_refreshes=False, host="h", port=1, address_family=0)
             with mock.patch.object(cmd, "factory_connect", lambda *a: connects.append(a)), mock.patch.object(sys, "stdin", io.StringIO(stdin_text or "")), \
-                    mock.patch.object(cmd, "reactor", mock.Mock()):
+                    use_reactor(mock.Mock()):
                 try:
                     fac = cmd.build_tool(opts, list(words))
                     res = "ok"
@@ -328,7 +328,7 @@ def run(ctx):
         for text in stdin_texts:
             fake = mock.Mock()
             with mock.patch.object(cmd, "VNCDoCLIFactory", lambda fake=fake: fake), mock.patch.object(cmd, "factory_connect", lambda *a: None), \
-                    mock.patch.object(cmd, "reactor", mock.Mock()), mock.patch.object(sys, "stdin", io.StringIO(text)):
+                    use_reactor(mock.Mock()), mock.patch.object(sys, "stdin", io.StringIO(text)):
                 opts = mock.Mock(verbose=0, delay=0, warp=1.0, incremental_refreshes=False, host="h", port=1, address_family=0)
                 try:
                     cmd.build_tool(opts, ["-"])
@@ -366,7 +366,7 @@ def run(ctx):
             # script of its own: it must be read only for the single word "-"
             with mock.patch.object(cmd, "build_command_list", fake_build_command_list), mock.patch.object(cmd, "setup_logging", lambda o: None), \
                     mock.patch.object(cmd, "factory_connect", lambda *a: None), mock.patch.object(sys, "stdin", io.StringIO("key enter\n")), \
-                    mock.patch.object(cmd, "reactor", mock.Mock()), mock.patch.object(sys, "argv", ["vncdo", "-s", "h"] + list(words)), \
+                    use_reactor(mock.Mock()), mock.patch.object(sys, "argv", ["vncdo", "-s", "h"] + list(words)), \
                     mock.patch.object(sys, "stderr", io.StringIO()):
                 try:
                     cmd.vncdo()
